@@ -179,5 +179,71 @@ def run(ctx):
     r7 = ctx.rule("R12.7", "every block is coded with tables built for it: a fixed block rewrites the RFC 1951 lengths and rebuilds both code tables on every path "
                   "(flush points produce many small fixed blocks between dynamic ones)", floor=1, config=cfg)
     _tables.rule_fixed_tables_every_block(ctx, cfg, r7)
+    r8 = ctx.rule("R12.8", "drain: with a flush requested the LZ routines return true only with an empty lookahead (else the block and marker are skipped silently)", floor=10, config=cfg)
+    rule_drain(ctx, cfg, r8)
     r5 = ctx.rule("R12.5", "deflate(): exits of the driver loop (non-Finish flush leaves only on error, output full, input empty)", floor=8, config=cfg)
     c14.deflate_table(ctx, cfg, r5, r5, r5, r5)
+
+
+# ---------------------------------------------------------------------------------------------- R12.8 drain under a flush
+def rule_drain(ctx, cfg, r):
+    """A flush point makes all input so far decodable only if the LZ routines hand `compress_inner` an EMPTY lookahead whenever a flush was
+    requested: `compress_inner` emits the block and the marker under `lookahead_size == 0` and silently skips them otherwise.  For each flush
+    value other than None, every path of compress_fast / compress_normal that returns plain `true` (not the result of a block flush that
+    left output pending) has decided `lookahead_size == 0` for the value it stores back."""
+    c = ctx.crate(cfg)
+    E = ctx.effects(cfg)
+    TF = discrs(c, "TDEFLFlush")
+    fadt = c.adt("TDEFLFlush")
+    co = c.adt("deflate::core::CompressorOxide")["path"]
+    po = c.adt("deflate::core::ParamsOxide")["path"]
+    do = c.adt("deflate::core::DictOxide")["path"]
+    flush_pl = ("fld", ("fld", ("deref", P(1)), "params", co), "flush", po)
+    la_pl = ("fld", ("fld", ("deref", P(1)), "dict", co), "lookahead_size", do)
+    n = 0
+    for fname in ("deflate::core::compress_fast", "deflate::core::compress_normal"):
+        f = c.fn(fname)
+        ctx.touched(f)
+        for vname, dv in sorted(TF.items(), key=lambda kv: kv[1]):
+            if vname == "None":
+                continue
+            st0 = {flush_pl: ("enum", fadt["path"], vname, dv)}
+            # only the EXIT paths matter (loop head / entry -> loop test -> write-back -> return): they are short.  Paths through the
+            # loop body are cut after 40 blocks (outcome 'stop') and are not judged here — the body's own exits (`break` under
+            # flush == None, the block flush that leaves output pending) are the subject of R12.3 / R02.4.
+            kw = dict(effects=E, max_paths=20000, max_blocks=40)
+            try:
+                rows = [(None, x) for x in paths.Evaluator(c, **kw).run(f, init_store=dict(st0))]
+                heads = sorted({x.outcome[1] for _, x in rows if x.outcome[0] == "backedge"})
+                allheads = heads
+                for h in heads:
+                    st = loop_invariant_store(c, f, h, init_store=st0, effects=E, max_paths=20000, max_blocks=60)
+                    rows += [(h, x) for x in paths.Evaluator(c, stop_blocks=[q for q in allheads if q != h], **kw).run(f, start_bb=h, init_store=st)]
+            except paths.PathLimit:
+                r.fail(f.name, "drain-eval/%s" % vname, "the exit paths of %s could not be enumerated within the path limit" % f.name)
+                continue
+            seen = 0
+            for h, x in rows:
+                if x.outcome[0] != "return" or x.ret is None or not is_const(x.ret) or const_val(x.ret) != 1:
+                    continue
+                if any(a[0] == "discr" and "in_buf" in tstr(a) and getattr(s_, "iv", None) == ((0, 0),) for a, s_ in x.atoms):
+                    continue      # no input buffer at all on this call: nothing was taken in, nothing to drain
+                if x.calls():
+                    continue      # went through (part of) the loop body: not an exit path
+                seen += 1
+                v = paths.final_value(x, la_pl)
+                Z = ("int", 0)
+                d = (x.facts.decide_cmp("Eq", v, Z) == 1 or x.facts.decide_cmp("Gt", v, Z) == 0 or x.facts.decide_cmp("Ne", v, Z) == 0
+                     or (is_const(v) and const_val(v) == 0))
+                if d:
+                    n += 1
+                else:
+                    r.fail(f.name, "drain/%s" % vname, "flush = %s: a path returns true (from %s) while the lookahead it stores back (%s) is not "
+                           "known to be empty: compress_inner then skips the block and the flush marker without an error, so the bytes "
+                           "emitted so far do not decode to all input supplied so far: %s"
+                           % (vname, "entry" if h is None else "loop head bb%d" % h, tstr(v)[:60], x.describe(8)))
+            if seen:
+                r.ok(f.name, "drain/%s" % vname, "%d true-returns under flush = %s all store an empty lookahead" % (seen, vname))
+            else:
+                r.fail(f.name, "drain-rows/%s" % vname, "no true-returning path found under flush = %s (anchor changed)" % vname)
+    return n
